@@ -81,10 +81,10 @@ def chooseBox (bb own : Option (List (Rat × Rat))) : Except Err (List (Rat × R
 
 def allSpatial (axesType : List String) : Bool := axesType.all (fun t => t == "spatial")
 
-/-- corner points: clockwise for an all-spatial output, the full product otherwise; with centring
-    they are first moved to pixel centres -/
+/-- corner points: clockwise for an all-spatial output of two pixel axes ("clockwise" is a notion of the plane), the full product
+    otherwise; with centring they are first moved to pixel centres -/
 def corners (box : List (Rat × Rat)) (axesType : List String) (center : Bool) : Except Err (List (List Rat)) :=
-  (if allSpatial axesType then orderClockwise box else .ok (product box)).map (fun verts =>
+  (if allSpatial axesType && box.length == 2 then orderClockwise box else .ok (product box)).map (fun verts =>
     if center then verts.map (fun v => v.map (fun c => ((Api.toIndex c : Int) : Rat))) else verts)
 
 /-- restriction of the corner images to one axis type -/
